@@ -21,6 +21,17 @@ Python → Lean
 * `numpy_pickle.dump/load`, `json.dumps/loads`, the `func_code.py` text and its comparison with the live source
                                                                        : `Codec` (parameters; hypotheses in JoblibProofs)
 * kill -9 after k system calls, the k-th possibly torn                 : `crash`
+* the cached function is NOT pure (its value changes over time)        : `Val.gen` — the GENERATION (epoch) of the execution
+  that produced a value; `Cfg.gen` — the generation a process lives in (what its executions of the function read and
+  what its `time.time()` stands for)
+* `metadata['time']` (`_persist_input`: `time.time()`)                  : the STAMP — `Codec.metaText stamp`, read back by
+  `Codec.metaStamp` (`get_metadata`; `{}` = `none`); written with the stamp `Cfg.gen`
+* `cache_validation_callback`                                          : `Callback` — `none`, `expires fresh`
+  (`expires_after(days=1)` / `(seconds=-1)`), `since g` (`expires_after(delta)` seen from a fixed instant: valid iff the
+  stamp is of generation `g` or later); `Callback.accepts`
+* the order `dump_item` → `store_metadata` of `_after_call` and the `clear_item` of a rejected entry are the code;
+  `Cfg.metadataFirst`, `Cfg.keepRejected`, `Cfg.skipCallbackWithoutMetadata` are VARIANTS (seeded changes C05-r4-m1/m2)
+  kept only for the counterexample theorems of JoblibProofs/C05.lean (`CfgOK` demands them off)
 Import-free, total, computable.
 -/
 namespace JoblibModel.Store
@@ -321,10 +332,13 @@ def pTmpMeta (a o : Nat) : Path := [.cache, .joblib, .mod, .func, .entry a, .tmp
 
 /-! ## Codec and configuration -/
 
-/-- The value a cached function returns: which version of the source computed it, for which argument. -/
+/-- The value a cached function returns: which version of the source computed it, for which argument, and in which
+GENERATION (the function is not pure: it reads an epoch that changes between generations; `gen` is the epoch of the
+execution that produced the value — "how old the value is"). -/
 structure Val where
   ver : Nat
   arg : Nat
+  gen : Nat
 deriving DecidableEq, Repr, Inhabited
 
 /-- Result of comparing the text read from `func_code.py` with the live source
@@ -340,10 +354,11 @@ structure Codec where
   pickle : Val → Bytes
   /-- `numpy_pickle.load(f)`; `none` = raises -/
   unpickle : Bytes → Option Val
-  /-- `json.dumps(metadata).encode()` (duration, input_args, time) -/
-  metaText : Bytes
-  /-- `json.loads(...)` succeeded and the dict has a `'time'` key; anything else reads as `{}` -/
-  metaHasTime : Bytes → Bool
+  /-- `json.dumps(metadata).encode()` (duration, input_args, time); the argument is the STAMP: the generation in which
+  `time.time()` was read by `_persist_input` -/
+  metaText : Nat → Bytes
+  /-- `json.loads(...)` succeeded and the dict has a `'time'` key: its stamp; anything else reads as `{}` = `none` -/
+  metaStamp : Bytes → Option Nat
   /-- `'# first line: N\n' + source` of version `v` -/
   codeText : Nat → Bytes
   /-- comparison of a `func_code.py` content with the live version `v` -/
@@ -351,11 +366,21 @@ structure Codec where
   gitText : Bytes
 
 /-- `cache_validation_callback`: none, or `expires_after(...)` whose answer for an entry with a readable time stamp is
-`fresh` (`expires_after(days=1)`: true, `expires_after(seconds=-1)`: false). -/
+`fresh` (`expires_after(days=1)`: true, `expires_after(seconds=-1)`: false), or `since g`: `expires_after(delta)` seen
+from a fixed instant — an entry with a readable time stamp is valid iff its stamp is of generation `g` or later
+(`time.time() - metadata['time'] < delta` with `now - delta` falling at the start of generation `g`). All of them answer
+"not valid" for metadata without a time stamp (the repaired `expires_after`). -/
 inductive Callback
   | none
   | expires (fresh : Bool)
+  | since (g : Nat)
 deriving DecidableEq, Repr
+
+/-- the callback's answer for an entry whose metadata has the time stamp `t` -/
+def Callback.accepts : Callback → Nat → Bool
+  | .none, _ => true
+  | .expires fresh, _ => fresh
+  | .since g, t => g ≤ t
 
 structure Cfg where
   codec : Codec
@@ -363,6 +388,9 @@ structure Cfg where
   me : Nat
   /-- live source version -/
   ver : Nat
+  /-- the generation this process lives in: the epoch its executions of the function read and what its `time.time()`
+  stands for -/
+  gen : Nat := 0
   callback : Callback := .none
   /-- `call_and_shelve(...).get()` instead of `__call__` -/
   shelve : Bool := false
@@ -371,6 +399,13 @@ structure Cfg where
   /-- the unrepaired code (before fixes F08, F09): `expires_after` indexes `metadata['time']` unconditionally and a
   `ValueError` from reading `func_code.py` propagates -/
   legacy : Bool := false
+  /-- VARIANT (seeded change C05-r4-m1, first half; not the code): `_after_call` stores `metadata.json` before `output.pkl` -/
+  metadataFirst : Bool := false
+  /-- VARIANT (C05-r4-m1, second half): `_is_in_cache_and_valid` does not `clear_item` an entry its callback rejected -/
+  keepRejected : Bool := false
+  /-- VARIANT (C05-r4-m2): `_is_in_cache_and_valid` returns early without reading the metadata when there is no callback
+  and does not consult the callback when `get_metadata` returned `{}` -/
+  skipCallbackWithoutMetadata : Bool := false
 
 
 /-! ## Library procedures (CPython 3.12) -/
@@ -512,15 +547,15 @@ def checkPrevious : Prog Bool :=
         | _ => raise .osError
     | _ => (writeFuncCode c).bind fun _ => ret false    -- except (IOError, OSError)
 
-/-- `get_metadata`: `true` iff the file reads as JSON with a `'time'` key; every failure reads as `{}`. -/
-def getMetadata (a : Nat) : Prog Bool :=
+/-- `get_metadata`: `some t` iff the file reads as JSON with a `'time'` key (of stamp `t`); every failure reads as `{}`. -/
+def getMetadata (a : Nat) : Prog (Option Nat) :=
   op (.openr (pMeta a)) fun r =>
     match r with
     | .fd i => op (.read (pMeta a) i) fun r =>
         match r with
-        | .data d => ret (c.codec.metaHasTime d)
-        | _ => ret false
-    | _ => ret false
+        | .data d => ret (c.codec.metaStamp d)
+        | _ => ret none
+    | _ => ret none
 
 /-- `clear_item` -/
 def clearItem (a : Nat) : Prog Unit :=
@@ -532,14 +567,18 @@ def isInCacheAndValid (a : Nat) : Prog Bool :=
   if !okc then ret false else
   (exists_ (pOut a)).bind fun e =>
   if !e then ret false else
-  (getMetadata c a).bind fun hasTime =>
+  if c.skipCallbackWithoutMetadata && c.callback == .none then ret true else
+  (getMetadata c a).bind fun stamp =>
+  /- the callback said "not valid": `clear_item`, `return False` -/
+  let reject : Prog Bool := if c.keepRejected then ret false else (clearItem c a).bind fun _ => ret false
   match c.callback with
   | .none => ret true
-  | .expires fresh =>
-    if !hasTime then
-      (if c.legacy then raise .keyError else (clearItem c a).bind fun _ => ret false)
-    else if fresh then ret true
-    else (clearItem c a).bind fun _ => ret false
+  | cb =>
+    match stamp with
+    | .none =>
+      if c.skipCallbackWithoutMetadata then ret true
+      else if c.legacy then raise .keyError else reject
+    | .some t => if cb.accepts t then ret true else reject
 
 /-- `load_item` -/
 def loadItem (a : Nat) : Prog Val :=
@@ -581,17 +620,18 @@ def dumpItem (a : Nat) (v : Val) : Prog Unit :=
 /-- `store_metadata` (bare `except: pass`) -/
 def storeMetadata (a : Nat) : Prog Unit :=
   ((mkdirp (pEntry a)).bind fun _ =>
-   safeWrite (pTmpMeta a c.me) (pMeta a) c.codec.metaText).tryCatch fun _ => ret ()
+   safeWrite (pTmpMeta a c.me) (pMeta a) (c.codec.metaText c.gen)).tryCatch fun _ => ret ()
 
 /-- `MemorizedResult.get()` : `load_item`, `ValueError` re-raised as `KeyError` -/
 def resultGet (a : Nat) : Prog Val :=
   (loadItem c a).tryCatch fun e => if e = .valueError then raise .keyError else raise e
 
-/-- `_call` + `_after_call` + `_persist_input` (the function body itself makes no modelled call). -/
+/-- `_call` + `_after_call` + `_persist_input` (the function body itself makes no modelled call): the value is the one
+of this process's generation, the metadata is stamped with it; `output.pkl` first, then `metadata.json`. -/
 def computeAndStore (a : Nat) : Prog Val :=
-  let v : Val := ⟨c.ver, a⟩
-  (dumpItem c a v).bind fun _ =>
-  (storeMetadata c a).bind fun _ =>
+  let v : Val := ⟨c.ver, a, c.gen⟩
+  (if c.metadataFirst then (storeMetadata c a).bind fun _ => dumpItem c a v
+   else (dumpItem c a v).bind fun _ => storeMetadata c a).bind fun _ =>
   if c.shelve then resultGet c a else ret v
 
 /-- `MemorizedFunc._cached_call` (`__call__`, or `call_and_shelve(...).get()` when `c.shelve`) -/
